@@ -117,11 +117,80 @@ def gen(rng, tier):
             "same_node": rng.random() < 0.5, "keep_handle": rng.random() < 0.5,
             "reads": [gen_read(rng) for _ in range(rng.randint(3, 14))],
             "end": rng.choice(["exit", "exit", "crash", "drop"]),
-            "refuse_fault": None, "do_a": rng.random() < 0.6, "gc_at": rng.randrange(14)}
+            "refuse_fault": None, "do_a": rng.random() < 0.6, "gc_at": rng.randrange(14),
+            "old_state": rng.choice(["as_imported", "as_imported", "as_imported", "emptied", "partly_deleted"]),
+            "race": rng.random() < 0.2, "race_seed": rng.getrandbits(32)}
     r = rng.random()
     if r < 0.3:
         case["refuse_fault"] = {"frac": rng.random(), "mode": rng.choice(["error", "crash", "cancel"])}
     return case
+
+
+RACE_PARK = ("fs.open", "fs.close", "sql.connect", "commit", "committed", "fs.tmpname")
+
+
+def _race(case, V, probes, journal, out):
+    """Two processes run create_db(force=False) onto the SAME fresh path, released one seam point at
+    a time.  Whatever the interleaving: an acknowledged call's database must hold exactly its own
+    input (never a mixture), i.e. the later one must have been refused."""
+    import random
+
+    rng = random.Random(case["race_seed"])
+    inputs = [case["db"], case["new"]]
+    sol = []
+    for i, inp in enumerate(inputs):
+        with World("c19r_") as w0:
+            m = w0.node()
+            r = w0.call(m, {"op": "create", "h": "h", "db": "r.db", "data": _src(inp, "path"), "kw": {"merge_strategy": "create_unique"}})
+            m.close()
+            sol.append(logical(raw_dump(w0.p("r.db"))) if r["ok"] else None)
+    if None in sol or sol[0] == sol[1]:
+        return
+    with World("c19race_") as w:
+        ns = [w.node(lockstep_kinds=RACE_PARK) for _ in inputs]
+        state = ["unstarted", "unstarted"]
+        res = [None, None]
+        sched = []
+        while any(s in ("unstarted", "parked") for s in state):
+            el = [i for i, s in enumerate(state) if s in ("unstarted", "parked")]
+            i = rng.choice(el) if rng.random() < 0.7 or not sched or sched[-1] not in el else sched[-1]
+            sched.append(i)
+            try:
+                if state[i] == "unstarted":
+                    ns[i].send({"op": "create", "h": "h", "db": "r.db", "data": dict(_src(inputs[i], "path"), name="race%d.gff" % i),
+                                "kw": {"merge_strategy": "create_unique"}})
+                else:
+                    ns[i].send(("go",))
+                m = ns[i].recv()
+            except NodeDied:
+                state[i] = "dead"
+                continue
+            if m[0] == "park":
+                state[i] = "parked"
+            else:
+                state[i] = "done"
+                res[i] = m[1]
+        for n in ns:
+            n.close()
+        journal.append(("race", "".join(map(str, sched)), [r and r["ok"] for r in res]))
+        acks = [i for i in (0, 1) if res[i] is not None and res[i]["ok"]]
+        probes["race_on_one_path"] = 1
+        if len(set(sched)) > 1:
+            probes["race_interleaved"] = 1
+        if acks:
+            try:
+                got = logical(raw_dump(w.p("r.db")))
+            except Exception as e:
+                V.append(viol("C19.race", "database unreadable after racing create_db calls: %r" % (e,), kind="race_unreadable"))
+                return
+            if len(acks) == 2:
+                V.append(viol("C19.race", "two racing create_db(force=False) calls onto one path were both acknowledged (schedule %s)" % (
+                    "".join(map(str, sched)),), kind="race_both_acknowledged"))
+            elif got != sol[acks[0]]:
+                what = [t for t in got if got[t] != sol[acks[0]].get(t)]
+                V.append(viol("C19.race", "racing create_db calls: the acknowledged import's database differs from its solitary result in %s "
+                              "(schedule %s)" % (what, "".join(map(str, sched))), kind="race_mixed", tables=",".join(what)))
+        out["stats"]["nodes"] = out["stats"].get("nodes", 0) + 4
 
 
 def _dial(d):
@@ -154,6 +223,15 @@ def run(case):
             out["discarded"] = True
             out["stats"] = w.stats
             return out
+        if case.get("old_state") in ("emptied", "partly_deleted"):
+            # the existing database may hold few or no features and is still a database
+            dd = call(n, {"op": "dump", "h": "h", "relations": False})
+            ids = [f["id"] for f in dd["dump"]["features"]] if dd["ok"] else []
+            if case["old_state"] == "partly_deleted":
+                ids = ids[: max(1, len(ids) // 2)]
+            if ids:
+                call(n, {"op": "delete", "h": "h", "ids": ids, "form": "strs", "kw": {"make_backup": False}})
+                probes["old_database_" + case["old_state"]] = 1
         n.close()  # the creating process ends; a.db is now "an existing database"
         path = w.p("a.db")
         d0 = file_digest(path)
@@ -286,6 +364,8 @@ def run(case):
                                       kind="force_handle_differs"))
                     out["digests"].add(core.digest(got))
         out["stats"] = w.stats
+    if case.get("race") and not V:
+        _race(case, V, probes, journal, out)
     out["trace_hash"] = core.digest(journal)
     out["nontrivial"] = nontrivial
     out["sample"] = {"db": G.lines_of(case["db"]["feats"], _dial(case["db"]))[:4], "reads": case["reads"][:5],
